@@ -449,6 +449,58 @@ def h_broadcast(ctx):
                     ctx.claim("broadcast query predicts, cell by cell, what the expanded query arrays predict", And([True if both_nan(u, v) else eq(u, v) for u, v in zip(np.ravel(g), np.ravel(r))]))
 
 
+def h_query_layout(ctx):
+    """the same query points presented as C-ordered, Fortran-ordered, transposed-view and strided 2x2 arrays and as
+    pandas Series: every presentation predicts, at each logical position, what the C-ordered arrays predict"""
+    kind = ctx.cfg["kind"]
+    stubs.reset_logs()
+    stubs.SCALE_CONTRACT["exact"] = False
+    e = np.array([p[0] for p in LAYOUT4])
+    n = np.array([p[1] for p in LAYOUT4])
+    d, dd = ctx.reals("d", 4), ctx.reals("dd", 4)
+    with warnings.catch_warnings():
+        warnings.simplefilter("ignore")
+        if kind == "trend":
+            est = vd.Trend(1).fit((e, n), d)
+        elif kind == "spline":
+            est = vd.Spline().fit((e, n), d)
+        elif kind == "vector":
+            est = vd.VectorSpline2D(mindist=1.0).fit((e, n), (d, dd))
+        elif kind == "kneighbors":
+            est = vd.KNeighbors(k=1).fit((e, n), d)
+        elif kind == "linear":
+            est = vd.Linear().fit((e, n), d)
+        elif kind == "cubic":
+            est = vd.Cubic().fit((e, n), d)
+        elif kind == "chain":
+            est = vd.Chain([("trend", vd.Trend(1)), ("spline", vd.Spline())]).fit((e, n), d)
+        else:
+            est = vd.Vector([vd.Trend(1), vd.Spline()]).fit((e, n), (d, dd))
+        qe = np.array([[0.4, 1.1], [1.6, 0.7]])
+        qn = np.array([[0.9, 0.3], [1.2, 2.0]])
+        ref = est.predict((qe, qn))
+        refs = list(ref) if isinstance(ref, tuple) else [ref]
+        pad_e, pad_n = np.zeros((2, 4)), np.zeros((2, 4))
+        pad_e[:, ::2], pad_n[:, ::2] = qe, qn
+        pad_e[:, 1::2], pad_n[:, 1::2] = -qe, -qn
+        forms = {
+            "Fortran order": (np.asfortranarray(qe), np.asfortranarray(qn), (2, 2)),
+            "transposed view": (np.ascontiguousarray(qe.T).T, np.ascontiguousarray(qn.T).T, (2, 2)),
+            "strided view": (pad_e[:, ::2], pad_n[:, ::2], (2, 2)),
+            "pandas Series": (pd.Series(qe.ravel()), pd.Series(qn.ravel()), (4,)),
+            "lists": (qe.ravel().tolist(), qn.ravel().tolist(), (4,)),
+        }
+        for label, (fe, fn, want) in forms.items():
+            got = est.predict((fe, fn))
+            gots = list(got) if isinstance(got, tuple) else [got]
+            ok = len(gots) == len(refs) and all(np.shape(g) == want for g in gots)
+            ctx.claim("prediction has the query's shape: %s" % label, ok)
+            if ok:
+                for g, r in zip(gots, refs):
+                    both_nan = lambda u, v: (not E.is_sym(u)) and (not E.is_sym(v)) and u != u and v != v
+                    ctx.claim("query presented as %s predicts, position by position, what the C-ordered arrays predict" % label, And([True if both_nan(u, v) else eq(u, v) for u, v in zip(np.asarray(g).ravel(), np.asarray(r).ravel())]))
+
+
 def _cfg_layout(tier, seed):
     return [{"kind": k, "extra": x} for k in ("trend", "spline", "vector", "kneighbors", "linear") for x in ((False, True) if tier == "thorough" or k in ("trend", "linear") else (True,))]
 
@@ -460,6 +512,7 @@ def _cfg_perm(tier, seed):
 HARNESSES = [
     Harness("layout", h_layout, _cfg_layout, bounds="4 symbolic elements per array presented as 1-D, 2x2 C-order, 2x2 Fortran-order, strided view of a longer array, pandas Series, with/without an ignored extra coordinate; query arrays of shape (1,3) and scalars; Trend with symbolic coordinates, the others on a concrete 4-point layout", stubs=["least_squares -> recorder with fixed result symbols", "cKDTree / scipy interpolators -> contract stubs"], extra_globals=_globals, engine={"oneshot": True}),
     Harness("broadcast_query", h_broadcast, lambda tier, seed: [{"kind": k} for k in ("trend", "spline", "vector", "kneighbors", "linear")], bounds="concrete 4-point layout, symbolic data; query pairs (1,3)x(2,1), scalar x (2,1), (3,) x scalar against the same queries expanded to equal shapes", stubs=["sklearn / cKDTree / scipy interpolators -> contract stubs"], extra_globals=_globals, engine={"oneshot": True}),
+    Harness("query_layout", h_query_layout, lambda tier, seed: [{"kind": k} for k in ("trend", "spline", "vector", "kneighbors", "linear", "cubic", "chain", "vector_of")], bounds="every gridder class plus a Chain and a Vector fitted on the concrete 4-point layout with symbolic data; one 2x2 query in C order against Fortran order, transposed view, strided view, pandas Series and Python lists", stubs=["sklearn / cKDTree / scipy interpolators -> contract stubs"], extra_globals=_globals, engine={"oneshot": True}),
     Harness("permutation", h_permutation, _cfg_perm, bounds="concrete 4-point layout, symbolic data; 3 permutations (quick) / all 23 (thorough); Spline, VectorSpline2D, Trend, KNeighbors(mean, k=2/3, symbolic query in general position), Linear (pairing only)", stubs=["sklearn -> contracts", "cKDTree / interpolators -> contract stubs"], extra_globals=_globals, engine={"oneshot": True}, timeout_s=900),
     Harness("linearity", h_linearity, lambda tier, seed: [{"kind": k} for k in ("spline", "trend", "kneighbors", "vector")], bounds="concrete 4-point layout; symbolic scalars a, b and data vectors (written as J g + residual so that every data vector is covered)", stubs=["sklearn -> contracts", "cKDTree -> contract stub"], extra_globals=_globals, engine={"oneshot": True, "timeout_ms": 120000}, outside="Cubic (not linear); Linear's linearity is scipy's (OUT-LIB)", timeout_s=900),
     Harness("integer_dtype", h_dtype, lambda tier, seed: [{"kind": k, "npts": 3 if (tier == "thorough" or not k.endswith("e_predict") and k != "vector_predict") else 2} for k in ("trend_predict", "trend_fit", "spline_predict", "vector_predict", "kneighbors")], bounds="3 points with symbolic integer coordinates/data in -50..50 carried by a modelled int64 dtype versus the same values as float64; symbolic parameters", stubs=["numpy dtype/casting model for np.empty/np.zeros(dtype=<input>.dtype) buffers (OUT-DTYPE)"], extra_globals=_globals, engine={"oneshot": True, "keyed_sqrt": True}),
